@@ -107,7 +107,8 @@ CLAIMS = {
              "one-link-removed / shifted variant.",
         note=COMMON_NOTE + "Hypothesis beyond the statement: each field keeps one kind/dtype/shape along a row (the "
              "quantifier's value classes satisfy it). Exactly representable values only."
-             " Audit follow-up: both key-mismatch refusals have kernel-checked witnesses (exTbadKeys, exUbadKeys); rowKey_eq_iff_python_key: on wire-form metadata the model's row key is Python's (period, metadata) grouping key. Declared: Spec.toCumRowSpec is evaluated on the implementation's output but has no bridge theorem on the model; toInc_row_spec assumes one value kind per field along a row (stronger than 'rows keep one field set'; needed for the exact round trip: a row going from array to scalar does not come back equal).",
+             " Audit follow-up: both key-mismatch refusals have kernel-checked witnesses (exTbadKeys, exUbadKeys); rowKey_eq_iff_python_key: on wire-form metadata the model's row key is Python's (period, metadata) grouping key. Declared: Spec.toCumRowSpec is evaluated on the implementation's output but has no bridge theorem on the model; toInc_row_spec assumes one value kind per field along a row (stronger than 'rows keep one field set'; needed for the exact round trip: a row going from array to scalar does not come back equal)."
+             " Final round (supersedes the 'declared' sentences above): toCum_row_spec (for a complete incremental triangle toCumulative succeeds and Spec.toCumRowSpec holds of its result: the bridge for the clause the driver evaluates on the implementation's to_cumulative output); toInc_row_spec_of_success (clauses 1-3 with NO assumption on value kind, dtype or shape: canonical form, distinct coordinates, one key set per row; witness exMixed_toInc with an int, a float and a float64 array along one row); the strong toInc_row_spec is kept for the exact round trip.",
         tech="Lean 4 theorems over Q (telescoping by induction on rows, regrouping lemmas) + differential correspondence"),
     "C05": dict(level=PV, ref="§7 C05/C06/C19",
         text="17 kernel-checked theorems, none open, about a byte-level codec model (bit view: ints with Int64 range, "
@@ -138,7 +139,8 @@ CLAIMS = {
              "shipped .trib files decode (model and implementation) to dumps pinned under corpus/golden and re-encode "
              "byte-identically; 42 pinned generated files under corpus/pinned.",
         note=COMMON_NOTE + "Pinned dumps were recorded once from the verified tree."
-             " Audit follow-up: the layout is pinned by kernel-checked LITERAL byte vectors written by to_binary of the verified tree (encode_exTriangle_bytes / encodePy_exTriangle_bytes / decode_exTriangle_bytes: 242 bytes with every value kind; plain-Cell and CumulativeCell pairs), by golden_meyers / golden_holey_init_tri / golden_missing_eval / golden_missing_cells (decode bytes = ok recordedCells and encode recordedCells = bytes, decide +kernel; c06.py checks on every run that the Lean literals are the sha-pinned shipped files), by formats_per_function_v1 (which function uses <h and which <H) and pool_content; encode_layout_v1 itself states magic, version and tags only. The decoder written only from the layout comment (notes/probes/independent_trib_decoder.py) runs inside c06.py on every generated file and on the history files. ragged_aq_triangle.trib (31 KB) stays in correspondence only.",
+             " Audit follow-up: the layout is pinned by kernel-checked LITERAL byte vectors written by to_binary of the verified tree (encode_exTriangle_bytes / encodePy_exTriangle_bytes / decode_exTriangle_bytes: 242 bytes with every value kind; plain-Cell and CumulativeCell pairs), by golden_meyers / golden_holey_init_tri / golden_missing_eval / golden_missing_cells (decode bytes = ok recordedCells and encode recordedCells = bytes, decide +kernel; c06.py checks on every run that the Lean literals are the sha-pinned shipped files), by formats_per_function_v1 (which function uses <h and which <H) and pool_content; encode_layout_v1 itself states magic, version and tags only. The decoder written only from the layout comment (notes/probes/independent_trib_decoder.py) runs inside c06.py on every generated file and on the history files. ragged_aq_triangle.trib (31 KB) stays in correspondence only."
+             " Final round: Model/CodecLayout.lean defines decodeLayout STRICTLY from the layout comment (exact lengths, no peek, no silent short read, unknown marker or value tag is an error, no constructor rules - not a mirror of binary_input.py); decodeLayout_encode / decodeLayout_encodePy (it reads everything the encoder writes), decodeLayout_literals, decodeLayout_golden (the four shipped files), a kernel-checked strictness example (a trailing unknown marker is refused by decodeLayout and accepted by decode); Drv/C06 runs decodeLayout on every file the implementation writes.",
         tech="Lean 4 proof over regenerated format tables + independent encoder/decoder model + golden-file history"),
     "C19": dict(level=PV, ref="§7 C05/C06/C19",
         text="13 kernel-checked theorems, none open: ten per-class prefix lemmas (on a strict prefix of its encoding a "
@@ -149,7 +151,8 @@ CLAIMS = {
              "compressed files: every truncation must raise.",
         note=COMMON_NOTE + "gzip's behaviour on truncated input is library behaviour: enumerated at every offset, not "
              "proved. BufferedReader.peek/short-read semantics as modelled."
-             " Audit follow-up: decode_prefix_safe_py (the writer as written, under coherent) and fromBinary_prefix_safe (what from_binary returns, including Triangle(cells)); compressed_prefix_refused states the compressed clause relative to the named library fact 'a truncated gzip stream is an error' (false for a multi-member writer, which is why the harness also cuts at every gzip member signature); the prefixes driver op reports wf / coherent / fileIsEncode / fileIsEncodePy and c19.py counts theorem instances (all files of a run). For non-coherent triangles prefix safety with (firstRepr t).take k is not proved; the all-offsets stream uses coherent triangles only.",
+             " Audit follow-up: decode_prefix_safe_py (the writer as written, under coherent) and fromBinary_prefix_safe (what from_binary returns, including Triangle(cells)); compressed_prefix_refused states the compressed clause relative to the named library fact 'a truncated gzip stream is an error' (false for a multi-member writer, which is why the harness also cuts at every gzip member signature); the prefixes driver op reports wf / coherent / fileIsEncode / fileIsEncodePy and c19.py counts theorem instances (all files of a run). For non-coherent triangles prefix safety with (firstRepr t).take k is not proved; the all-offsets stream uses coherent triangles only."
+             " Final round (supersedes the last sentence above): decode_prefix_safe_firstRepr / spec_prefixSafe_firstRepr - for EVERY well-formed triangle, coherent or not, each strict prefix of the file the writer really writes is refused or decodes to (firstRepr t).take k; the all-offsets stream now includes non-coherent triangles judged by that oracle, and every file of a run is a theorem instance.",
         tech="Lean 4 proof (prefix-safety of a parser by per-class lemmas + induction over records) + all-offsets "
              "correspondence"),
     "C07": dict(level=PV, ref="§7 C07",
@@ -178,7 +181,8 @@ CLAIMS = {
              "(closed-form windows, conservation, expectStraddle) on the implementation's output.",
         note=COMMON_NOTE + "Non-month-end origins with month units only in a separate stream compared against the model. "
              "Window disjointness relies on C12 date arithmetic (Spec evaluates the closed form on every output)."
-             " Audit follow-up: the window anchor is tied to the requested origin (anchor_spec_month: the anchor is the last day of month M0 + j*q, strictly before the earliest period start, the next grid point not before it; anchor_spec_day; window_origin_month gives the closed form of every window from period_origin; evalGrid_origin_month: d in grid iff d = origin + k*res and first <= d <= last); aggPeriod_sums_inside_month: an output cell's field equals the sum over EXACTLY the source cells with o.ps <= c.ps, c.pe <= o.pe and the same evaluation date; straddle_iff_triangleError_month / straddle_raises_month (no side hypothesis); aggregate_union_of_slices / aggregate_conserves lift to all slices; spec_windowsOk_month(_all), spec_evalOk_month, spec_expectStraddle_month bridge the Spec. Declared: the closed forms are for month units (for day/week units the anchor, disjointness and the regime-independent theorems are proved); Spec.C08.cover / cellSums / keysOk / conserves are evaluated on every implementation output but have no Bool bridge to the model; conservation with an evaluation resolution given at the same time is not lifted; the TriangleError statement is per slice (an earlier slice's other error can pre-empt it).",
+             " Audit follow-up: the window anchor is tied to the requested origin (anchor_spec_month: the anchor is the last day of month M0 + j*q, strictly before the earliest period start, the next grid point not before it; anchor_spec_day; window_origin_month gives the closed form of every window from period_origin; evalGrid_origin_month: d in grid iff d = origin + k*res and first <= d <= last); aggPeriod_sums_inside_month: an output cell's field equals the sum over EXACTLY the source cells with o.ps <= c.ps, c.pe <= o.pe and the same evaluation date; straddle_iff_triangleError_month / straddle_raises_month (no side hypothesis); aggregate_union_of_slices / aggregate_conserves lift to all slices; spec_windowsOk_month(_all), spec_evalOk_month, spec_expectStraddle_month bridge the Spec. Declared: the closed forms are for month units (for day/week units the anchor, disjointness and the regime-independent theorems are proved); Spec.C08.cover / cellSums / keysOk / conserves are evaluated on every implementation output but have no Bool bridge to the model; conservation with an evaluation resolution given at the same time is not lifted; the TriangleError statement is per slice (an earlier slice's other error can pre-empt it)."
+             " Final round (supersedes the 'declared' sentences above): spec_holds_on_model_month - the WHOLE executable Spec (windowsOk, cover, cellSums, keysOk, conserves) holds on the output of aggregate for month units; spec_holds_on_model_month_eval and the day/week and mixed variants (spec_holds_on_model_day, _day_eval, _month_evalday, _day_evalmonth) incl. conservation when an evaluation resolution is given at the same time; window_origin_day, aggPeriod_sums_inside_day, straddle_iff_triangleError_day, evalGrid_origin_day: the closed forms also for day/week units. Still declared: the theorems are for cumulative (non-incremental) triangles (an incremental one goes through aggregate_incremental_commutes and the C04 conversions); the TriangleError statements are per slice (an earlier slice's other error pre-empts); day/week statements assume dates inside date.min..date.max with one step of room; month units from a non-month-end origin, non-positive quantities and the empty triangle are outside these theorems.",
         tech="Lean 4 theorems (sum over a partition) + differential correspondence"),
     "C09": dict(level=PV, ref="§7 C09",
         text="25 kernel-checked theorems: the rule table regenerated from /repo by probing each closure is re-proved on "
